@@ -707,10 +707,20 @@ impl Context {
         code: &'a str,
         code_source: CodeSource,
     ) -> Result<(Vec<typed_ast::Statement<'a>>, InterpreterResult)> {
-        let statements = self
+        let imported_modules_old = self.resolver.imported_modules.clone();
+
+        let result = self
             .resolver
             .resolve(code, code_source.clone())
-            .map_err(NumbatError::ResolverError)?;
+            .map_err(NumbatError::ResolverError);
+
+        if result.is_err() {
+            // Forget the modules that were marked as imported by this (failing) input.
+            // Otherwise, a later `use` of the same module would silently do nothing.
+            self.resolver.imported_modules = imported_modules_old.clone();
+        }
+
+        let statements = result?;
 
         let prefix_transformer_old = self.prefix_transformer.clone();
 
@@ -730,6 +740,7 @@ impl Context {
             //     >>> fn f(h_) = 1     # <-- here we want to use 'f' again
             //
             self.prefix_transformer = prefix_transformer_old.clone();
+            self.resolver.imported_modules = imported_modules_old.clone();
         }
 
         let transformed_statements = result?;
@@ -754,6 +765,7 @@ impl Context {
             //
             self.prefix_transformer = prefix_transformer_old.clone();
             self.typechecker = typechecker_old.clone();
+            self.resolver.imported_modules = imported_modules_old.clone();
 
             if self.load_currency_module_on_demand
                 && let Err(NumbatError::TypeCheckError(TypeCheckError::UnknownIdentifier(
@@ -828,6 +840,7 @@ impl Context {
             self.prefix_transformer = prefix_transformer_old;
             self.typechecker = typechecker_old;
             self.interpreter = interpreter_old;
+            self.resolver.imported_modules = imported_modules_old;
         }
 
         let result = result.map_err(|err| NumbatError::RuntimeError(*err))?;
